@@ -825,6 +825,22 @@ fn op_new_cyclic(a: u8, script: Closure) {
                     Closure::Panic => {
                         std::panic::panic_any(CLOSURE_PANIC);
                     },
+                    Closure::NestedNewCyclic => {
+                        // an inner new_cyclic while this allocation is still uninitialised: its Weak stays dead inside
+                        // the inner closure and after the inner call has returned
+                        let look = |when: &str| {
+                            if w.strong_count() != 0 {
+                                v!("C14", "P-cyclic", "Weak::strong_count() of the allocation under construction = {} {}", w.strong_count(), when);
+                            } else if let Some(cc) = checked_upgrade(w, WRef::Obj(id)) {
+                                std::mem::forget(cc);
+                            }
+                        };
+                        let inside = || look("inside the closure of a nested new_cyclic");
+                        if let Some((_nid, cc)) = make_cyclic_node_hook(None, Some(&inside)) {
+                            look("after a nested new_cyclic returned");
+                            api_drop(cc);
+                        }
+                    },
                 }
                 // The value is built last: nothing can unwind once it exists
                 let node = Node::new(id);
@@ -1469,7 +1485,8 @@ fn post_op(op: Op, faulted: bool) {
     if matches!(op.code, Code::Collect | Code::CollectHolding) && faults == 0 && c.fin_events.get() == c.fin_mark.get() && c.drop_events.get() == c.drop_mark.get() {
         let mr = c.model.borrow().must_reclaim();
         if mr != 0 {
-            v!("C02", "P-complete", "collect_cycles() ran no finalizer and no destructor but unreachable objects {:?} were not reclaimed", set_list(mr));
+            let prop = complete_prop(mr);
+            v!(prop, "P-complete", "collect_cycles() ran no finalizer and no destructor but unreachable objects {:?} were not reclaimed", set_list(mr));
             return;
         }
     }
@@ -1655,6 +1672,18 @@ fn post_op(op: Op, faulted: bool) {
     }
 }
 
+/// An unreclaimed object whose reference count sits at the limit makes the failure C16's ("the object remains correctly
+/// managed afterwards: it can still be collected")
+fn complete_prop(mr: Set) -> &'static str {
+    let c = ctx();
+    let m = c.model.borrow();
+    if set_list(mr).iter().any(|i| m.count(*i) + 4 >= STRONG_MAX) {
+        "C16"
+    } else {
+        "C02"
+    }
+}
+
 fn set_list(s: Set) -> Vec<usize> {
     (0..16).filter(|i| s & (1 << i) != 0).collect()
 }
@@ -1720,7 +1749,8 @@ pub fn epilogue() -> Vec<Op> {
     if faults == 0 {
         let mr = c.model.borrow().must_reclaim();
         if mr != 0 {
-            v!("C02", "P-complete", "after dropping every handle and collecting until quiescence, unreachable objects {:?} were not reclaimed", set_list(mr));
+            let prop = complete_prop(mr);
+            v!(prop, "P-complete", "after dropping every handle and collecting until quiescence, unreachable objects {:?} were not reclaimed", set_list(mr));
             return done;
         }
         // Everything still allocated must be pinned through an untraced field (must_reclaim excludes exactly those)
